@@ -47,6 +47,15 @@ def reader(ctx):
         sink = key(v.top.attrs["sink"])
         source = key(v.top.attrs["source"])
         ob1.instance("%s: cmd.valid" % tag, sorted(value_prim_keys(v, _single(v, cmdn + ".valid"))))
+        # a reservation stands for a read that is in flight: nothing but the pop that hands the word on may release it. A reset input on either FIFO
+        # (ResetInserter) forgets reads whose data is still to come
+        rs_ = [l for l in v.leaves if l.kind in ("assign", "nextvalue") and l.target is not None and key(l.target) in (rk + ".reset", dk + ".reset")
+               and not is0(l.value)]
+        wrapped_ = [o for o in (rf, df) if any("ResetInserter" in str(w_) for w_ in (o.meta.get("wrappers") or []))]
+        ob1.instance("%s: reset inputs of the reservation / data FIFO" % tag, {"drivers": [str(l) for l in rs_], "reset-inserted": [str(o) for o in wrapped_]})
+        for l in rs_:
+            ob1.refute("%s:fifo-reset:%s" % (tag, key(l.target)), "%s is driven (%s): resetting the reservation or the data FIFO releases the slots of reads that are still in "
+                       "flight - their data is later emitted for other addresses, or overflows the data FIFO" % (key(l.target), str(l)[:160]), l.loc)
         # push == fire(cmd)
         push = prim_keys(v, [(Sym(rk + ".sink.valid"), True)])
         fc = fire_keys(v, cmdn)
